@@ -526,6 +526,17 @@ Definition src_push_order_ok : bool :=
   list_eqb str_eqb calls_storage_push [b "s.ingest"; b "os.Rename"] &&
   list_eqb str_eqb calls_ingest [b "os.CreateTemp"; b "ioutil.CopyBuffer"; b "os.Chmod"].
 
+(* initialisation and loading as modelled by new_steps / reopen / load / load_okb (callseq, callguards):
+   NewWithContext = storage, blobs directory, oci-layout, index.json in this order; each of the two
+   files is written (through writeFileAtomic / writeIndexFile) only when opening it failed, and is
+   read and validated otherwise; loadIndex enters every entry by digest, by name iff it carries
+   a reference name, and indexes (decodes) it *)
+Definition src_init_ok : bool :=
+  list_eqb str_eqb calls_new [b "NewStorage"; b "ensureDir"; b "store.ensureOCILayoutFile"; b "store.loadIndexFile"] &&
+  guard_eqb guards_ensure_layout [(b "os.Open", []); (b "writeFileAtomic", [b "err != nil"]); (b "validateOCILayout", [])] &&
+  guard_eqb guards_load_index_file [(b "os.Open", []); (b "s.writeIndexFile", [b "err != nil"]); (b "loadIndex", [])] &&
+  guard_eqb guards_load_index [(b "tagger.Tag", []); (b "tagger.Tag", [b "ref != ''"]); (b "graph.IndexAll", [])].
+
 (* lock discipline assumed by the two models (translator kind callseq with mark_defer):
    Push / Tag / Untag / SaveIndex hold the READ lock of Store.sync from their first statement to
    their return (so they interleave with one another: Model/OciCrashConc.v), Delete and GC hold
